@@ -24,12 +24,12 @@ func (C05) Plan(tier string) core.Plan {
 
 func (C05) Info() core.Info {
 	return core.Info{
-		Rule: "worlds in class (a): every converter has <=1 input value, with arbitrary cycles, bidirectional pairs and multi-output converters, or class (b): multi-input converters without cyclic dependencies, each firing in the EXPECT fixpoint; derivable (planned) and broken variants; a fault-free batch and a batch in which some converters fail at their k-th execution. Oracle 1 (completeness): target EXPECT-satisfiable => Call returns no error, or (faulty batch only) exactly an injected converter error. Oracle 2 (stability, fault-free batch): the same world under 10-48 seeded iteration-order schedules (canonical, reverse, rotate, uniform, mixed, adversarial single site) yields one outcome class. Non-trivial: >=2 converters; distinct = distinct (world shape, event-log hash)",
+		Rule: "worlds in class (a): every converter has <=1 input value, with arbitrary cycles, bidirectional pairs and multi-output converters, or class (b): multi-input converters without cyclic dependencies, each firing in the EXPECT fixpoint; derivable (planned) and broken variants, and two-call histories (the call with a supply missing, then the full call, on the same converter objects, some of them run-once); a fault-free batch and a batch in which some converters fail at their k-th execution. Oracle 1 (completeness): target EXPECT-satisfiable => Call returns no error, or (faulty batch only) exactly an injected converter error. Oracle 2 (stability, fault-free batch): the same world under 10-48 seeded iteration-order schedules (canonical, reverse, rotate, uniform, mixed, adversarial single site) yields one outcome class. Non-trivial: >=2 converters; distinct = distinct (world shape, event-log hash)",
 		Assumptions: []string{
 			"EXPECT under-approximates what the documentation promises; between EXPECT and PERMIT neither success nor failure is demanded",
 			"converter dependency for class (b) is judged with PERMIT (conservative: more edges, fewer worlds qualify)",
 		},
-		Probes:    []string{"c05_class_a", "c05_class_b", "c05_must_succeed", "c05_cyclic_class_a", "c05_chain_depth_ge3", "c05_underivable_stable", "c05_injected_error_reported", "s1_nonidentity_perms"},
+		Probes:    []string{"c05_class_a", "c05_class_b", "c05_must_succeed", "c05_cyclic_class_a", "c05_chain_depth_ge3", "c05_underivable_stable", "c05_injected_error_reported", "c05_call_after_failed_attempt", "s1_nonidentity_perms"},
 		Real:      realComponents,
 		Simulated: simComponents,
 	}
@@ -50,6 +50,35 @@ func (C05) Gen(r *simrt.RNG, tier string) core.Case {
 	if r.Chance(1, 5) {
 		breakWorld(r, &w)
 	}
+	// history: first the call with a supply missing, then the full call, on the same objects
+	// (run-once converters included: a failed attempt must not poison the next call)
+	if r.Chance(1, 5) && len(w.Ops[0].Args) > 1 {
+		full := w.Ops[0]
+		broken := full
+		broken.Args = nil
+		dropped := false
+		for _, a := range full.Args {
+			if k := w.Args[a].Kind; !dropped && (k == world.ArgNamed || k == world.ArgTyped) && r.Chance(1, 2) {
+				dropped = true
+				continue
+			}
+			broken.Args = append(broken.Args, a)
+		}
+		if dropped {
+			for pi := 1; pi < len(w.Parties); pi++ {
+				if (r.Chance(1, 3) || len(w.Parties[pi].In) > 1) && w.Parties[pi].InForm != world.FormBuilt {
+					w.Parties[pi].Once = true
+				}
+			}
+			for ai := range w.Args {
+				if w.Args[ai].Kind == world.ArgConv && w.Parties[w.Args[ai].Party].Once {
+					w.Args[ai].Kind = world.ArgConvFunc
+				}
+			}
+			w.Ops = []world.Op{broken, full}
+			return RCase{W: w}
+		}
+	}
 	// faulty batch: some converters fail; a derivable call may then only report such an error
 	if r.Chance(1, 4) {
 		for pi := 1; pi < len(w.Parties); pi++ {
@@ -62,6 +91,23 @@ func (C05) Gen(r *simrt.RNG, tier string) core.Case {
 }
 
 // c05Class returns "a", "b" or "".
+// c05History: the history ends with a call that, taken alone, is in class (a) or (b).
+func c05History(w *world.World) bool {
+	if len(w.Ops) == 0 {
+		return false
+	}
+	// the last operation is the judged one; earlier ones are history (an earlier
+	// attempt with a supply missing need not be in a class itself)
+	for i := range w.Ops {
+		if w.Ops[i].Kind != world.OpCall {
+			return false
+		}
+	}
+	w1 := w.Clone()
+	w1.Ops = []world.Op{w.Ops[len(w.Ops)-1]}
+	return c05Class(&w1) != ""
+}
+
 func c05Class(w *world.World) string {
 	if len(w.Ops) != 1 || w.Ops[0].Kind != world.OpCall {
 		return ""
@@ -96,7 +142,7 @@ func c05Class(w *world.World) string {
 	return "b"
 }
 
-func c05Valid(w world.World) bool { return c05Class(&w) != "" }
+func c05Valid(w world.World) bool { return c05History(&w) }
 
 func (C05) Decode(raw json.RawMessage) (core.Case, error) { return decodeRCase(raw) }
 func (C05) Shrink(c core.Case) []core.Case                { return shrinkWorlds(c, c05Valid, false) }
@@ -107,19 +153,32 @@ func (C05) Run(c core.Case, ctx *core.Ctx) []core.Violation {
 	if !world.WellFormed(w, false) {
 		return nil
 	}
-	class := c05Class(&w)
-	if class == "" {
+	if !c05History(&w) {
 		ctx.St.Inc("c05_outside_classes")
 		return nil
 	}
 	sh := world.ShapeHash(w)
-	view := model.ViewOf(&w, 0)
-	availE, _ := model.LFP(&w, view, model.Expect, false)
-	must := len(model.Missing(&w, w.Ops[0].Target, availE, model.Expect)) == 0
-	cyc := hasConverterCycle(&w, view.Convs)
+	type opInfo struct {
+		class string
+		must  bool
+		cyc   bool
+		nconv int
+	}
+	infos := make([]opInfo, len(w.Ops))
+	for i := range w.Ops {
+		w1 := w.Clone()
+		w1.Ops = []world.Op{w.Ops[i]}
+		view := model.ViewOf(&w, i)
+		availE, _ := model.LFP(&w, view, model.Expect, false)
+		infos[i] = opInfo{class: c05Class(&w1), must: len(model.Missing(&w, w.Ops[i].Target, availE, model.Expect)) == 0,
+			cyc: hasConverterCycle(&w, view.Convs), nconv: len(view.Convs)}
+	}
 	var out []core.Violation
-	outcomes := map[string]int{}
-	var firstOf = map[string]int{}
+	outcomes := make([]map[string]int, len(w.Ops))
+	firstOf := make([]map[string]int, len(w.Ops))
+	for i := range outcomes {
+		outcomes[i], firstOf[i] = map[string]int{}, map[string]int{}
+	}
 	for k := 0; k < ctx.NumSchedules(); k++ {
 		rt, sim := execWorld(&w, ctx, k)
 		if rt.InstErr != nil {
@@ -127,53 +186,71 @@ func (C05) Run(c core.Case, ctx *core.Ctx) []core.Violation {
 			finish(ctx, rt, sim)
 			return nil
 		}
-		ctx.St.Inc("c05_class_" + class)
-		if cyc && class == "a" {
-			ctx.St.Inc("c05_cyclic_class_a")
-		}
-		res := rt.Results[0]
-		oc := "ok"
-		switch {
-		case !res.Returned:
-			oc = "no-return"
-		case res.ErrKind == "injected":
-			oc = "ok" // "succeeds (or reports the error of a converter that failed)"
-			ctx.St.Inc("c05_injected_error_reported")
-		case res.Err != nil:
-			oc = "error"
-		}
-		faulty := len(w.Faults) > 0
-		if _, seen := firstOf[oc]; !seen {
-			firstOf[oc] = k
-		}
-		outcomes[oc]++
-		if must {
-			ctx.St.Inc("c05_must_succeed")
-			switch oc {
-			case "error":
-				out = append(out, core.Violation{Class: "derivable-call-failed", Site: "Call",
-					Detail: fmt.Sprintf("class (%s) world, every parameter derivable under the documented rules, schedule %d: Call failed (%s): %s", class, k, res.ErrKind, trunc(res.Err.Error()))})
-			case "no-return":
-				out = append(out, core.Violation{Class: res.PanicClass, Site: res.PanicSite, Detail: "derivable call did not return: " + trunc(res.PanicDetail)})
+		nontrivial := false
+		for oi, res := range rt.Results {
+			if res == nil {
+				continue
 			}
-			for i := res.LogFrom; i < res.LogTo; i++ {
-				if depthOf(rt, &rt.Log[i]) >= 3 {
-					ctx.St.Inc("c05_chain_depth_ge3")
-					break
+			in := infos[oi]
+			if in.class == "" {
+				continue // history only, not judged
+			}
+			ctx.St.Inc("c05_class_" + in.class)
+			if oi > 0 {
+				ctx.St.Inc("c05_call_after_failed_attempt")
+			}
+			if in.cyc && in.class == "a" {
+				ctx.St.Inc("c05_cyclic_class_a")
+			}
+			oc := "ok"
+			switch {
+			case !res.Returned:
+				oc = "no-return"
+			case res.ErrKind == "injected":
+				oc = "ok" // "succeeds (or reports the error of a converter that failed)"
+				ctx.St.Inc("c05_injected_error_reported")
+			case res.Err != nil:
+				oc = "error"
+			}
+			if _, seen := firstOf[oi][oc]; !seen {
+				firstOf[oi][oc] = k
+			}
+			outcomes[oi][oc]++
+			if in.must {
+				ctx.St.Inc("c05_must_succeed")
+				switch oc {
+				case "error":
+					out = append(out, core.Violation{Class: "derivable-call-failed", Site: "Call",
+						Detail: fmt.Sprintf("op %d, class (%s) world, every parameter derivable under the documented rules, schedule %d: Call failed (%s): %s", oi, in.class, k, res.ErrKind, trunc(res.Err.Error()))})
+				case "no-return":
+					out = append(out, core.Violation{Class: res.PanicClass, Site: res.PanicSite, Detail: "derivable call did not return: " + trunc(res.PanicDetail)})
+				}
+				for i := res.LogFrom; i < res.LogTo; i++ {
+					if depthOf(rt, &rt.Log[i]) >= 3 {
+						ctx.St.Inc("c05_chain_depth_ge3")
+						break
+					}
 				}
 			}
+			if in.nconv >= 2 {
+				nontrivial = true
+			}
 		}
-		_ = faulty
-		if len(view.Convs) >= 2 {
+		if nontrivial {
 			ctx.MarkNontrivial(sh, sim)
 		}
 		finish(ctx, rt, sim)
 	}
-	if len(outcomes) > 1 && len(w.Faults) == 0 {
-		out = append(out, core.Violation{Class: "outcome-depends-on-iteration-order", Site: "Call",
-			Detail: fmt.Sprintf("class (%s) world: outcomes over %d schedules %v (first schedule of each: %v)", class, ctx.NumSchedules(), outcomes, firstOf)})
-	} else if !must && outcomes["error"] > 0 {
-		ctx.St.Inc("c05_underivable_stable")
+	for oi := range w.Ops {
+		if infos[oi].class == "" {
+			continue
+		}
+		if len(outcomes[oi]) > 1 && len(w.Faults) == 0 {
+			out = append(out, core.Violation{Class: "outcome-depends-on-iteration-order", Site: "Call",
+				Detail: fmt.Sprintf("op %d, class (%s) world: outcomes over %d schedules %v (first schedule of each: %v)", oi, infos[oi].class, ctx.NumSchedules(), outcomes[oi], firstOf[oi])})
+		} else if !infos[oi].must && outcomes[oi]["error"] > 0 {
+			ctx.St.Inc("c05_underivable_stable")
+		}
 	}
 	return sortViolations(out)
 }
